@@ -144,6 +144,45 @@ type Prover struct {
 	keep    bool
 }
 
+type attempt struct {
+	cfg      solverCfg
+	file     string
+	stripped bool
+	timeout  time.Duration
+}
+
+type attemptResult struct {
+	a   attempt
+	st  string
+	out string
+	ms  int64
+}
+
+// runGroup runs attempts concurrently and returns as soon as one says unsat (the others are left to their time limit).
+func runGroup(as []attempt) []attemptResult {
+	ch := make(chan attemptResult, len(as))
+	for _, a := range as {
+		go func(a attempt) {
+			st, out, ms := runSolver(a.cfg, a.file, a.timeout)
+			ch <- attemptResult{a, st, out, ms}
+		}(a)
+	}
+	var res []attemptResult
+	for range as {
+		r := <-ch
+		res = append(res, r)
+		if r.st == "unsat" {
+			break
+		}
+	}
+	return res
+}
+
+// discharge decides one obligation.  Stage 1: the fast configuration with a short limit (decides almost everything).
+// Stage 2 (only if stage 1 did not prove it): a group run concurrently - the other z3 version, two more E-matching
+// runs with different solver seeds (proofs by E-matching can be order-sensitive), and, when the goal is
+// quantifier-free, cvc5 / z3 on the quantifier-free weakening of the assumptions.  Any "unsat" proves the obligation;
+// "sat" on the unweakened quantifier-free script is a counterexample of the VC.
 func (pr *Prover) discharge(vc *VC, o *Oblig, prelude string, axioms []string) *Verdict {
 	v := &Verdict{Oblig: o}
 	if len(vc.errs) > 0 {
@@ -152,9 +191,6 @@ func (pr *Prover) discharge(vc *VC, o *Oblig, prelude string, axioms []string) *
 		return v
 	}
 	script, quant := vc.script(o, prelude, axioms, false)
-	if pr.seed != 0 {
-		script = fmt.Sprintf("(set-option :random-seed %d)\n", pr.seed) + script
-	}
 	v.SMTBytes = len(script)
 	if len(script) > 4<<20 {
 		v.Status = "error"
@@ -168,83 +204,114 @@ func (pr *Prover) discharge(vc *VC, o *Oblig, prelude string, axioms []string) *
 		return v
 	}
 	v.Script = file
-	sawSat := false
+	cleanup := func(extra ...string) {
+		for _, f := range extra {
+			os.Remove(f)
+		}
+		if !pr.keep {
+			os.Remove(file)
+		}
+	}
 	cfgs := solversFor(quant, pr.tier)
+	record := func(rs []attemptResult) (proved bool, sat *attemptResult, errRes *attemptResult) {
+		for i := range rs {
+			r := rs[i]
+			v.Ms += r.ms
+			name := r.a.cfg.name
+			if r.a.stripped {
+				name += "/stripped"
+			}
+			v.Tried = append(v.Tried, name+":"+r.st)
+			switch r.st {
+			case "unsat":
+				v.Status = "proved"
+				v.Backend = name
+				proved = true
+			case "sat":
+				if !r.a.stripped && !quant {
+					sat = &rs[i]
+				}
+			case "error":
+				errRes = &rs[i]
+			default:
+				v.Output = r.out
+			}
+		}
+		return
+	}
+	// stage 1
+	t1 := pr.timeout
+	if o.Kind == "canary" && t1 > 2*time.Second {
+		t1 = 2 * time.Second // a vacuous context is refuted at once; anything slower is "not refuted"
+	} else if t1 > 4*time.Second {
+		t1 = 4 * time.Second
+	}
+	proved, sat, errRes := record(runGroup([]attempt{{cfg: cfgs[0], file: file, timeout: t1}}))
+	if proved {
+		cleanup()
+		return v
+	}
+	if errRes != nil {
+		v.Status = "error"
+		v.Output = errRes.a.cfg.name + ": " + errRes.out
+		return v
+	}
 	if o.Kind == "canary" {
-		cfgs = cfgs[:1]
+		v.Status = "failed-unknown"
+		cleanup()
+		return v
 	}
-	for _, cfg := range cfgs {
-		to := pr.timeout
-		if o.Kind == "canary" && to > 2*time.Second {
-			to = 2 * time.Second // a vacuous context is refuted at once; anything slower is "not refuted"
-		}
-		st, out, ms := runSolver(cfg, file, to)
-		v.Ms += ms
-		v.Tried = append(v.Tried, cfg.name+":"+st)
-		switch st {
-		case "unsat":
-			v.Status = "proved"
-			v.Backend = cfg.name
-			if !pr.keep {
-				os.Remove(file)
+	if sat == nil {
+		// stage 2
+		var group []attempt
+		var extra []string
+		if quant {
+			group = append(group, attempt{cfg: cfgs[1], file: file, timeout: pr.timeout})
+			group = append(group, attempt{cfg: cfgs[0], file: file, timeout: pr.timeout})
+			for _, seed := range []int{1, 2} {
+				c := cfgs[0]
+				c.name = fmt.Sprintf("%s/seed%d", c.name, seed)
+				c.argv = append(append([]string{}, c.argv...), fmt.Sprintf("smt.random_seed=%d", seed), fmt.Sprintf("sat.random_seed=%d", seed))
+				group = append(group, attempt{cfg: c, file: file, timeout: pr.timeout})
 			}
-			return v
-		case "sat":
-			if !quant {
-				// definite counterexample of the VC: fetch a model
-				sawSat = true
-				v.Backend = cfg.name
-				ms2, _ := vc.script(o, prelude, axioms, true)
-				mf := file + ".model.smt2"
-				os.WriteFile(mf, []byte(ms2), 0o644)
-				_, mout, _ := runSolver(cfg, mf, pr.timeout)
-				v.Model = mout
-				os.Remove(mf)
-			}
-			v.Output = out
-		case "error":
-			v.Status = "error"
-			v.Output = cfg.name + ": " + out
-			return v
-		default:
-			v.Output = out
-		}
-		if sawSat {
-			break
-		}
-	}
-	if !sawSat && quant && o.Kind != "canary" && !containsQuant(o.Goal) {
-		// second strategy: the goal is quantifier-free; weaken the assumptions to their quantifier-free parts and
-		// use the solvers' complete procedures (strings: cvc5).  unsat here proves the original obligation.
-		s2, _ := vc.scriptMode(o, prelude, axioms, false, true)
-		f2 := file + ".qf.smt2"
-		if err := os.WriteFile(f2, []byte(s2), 0o644); err == nil {
-			cfgs2 := solversFor(false, pr.tier)
-			cfgs2 = []solverCfg{cfgs2[2], cfgs2[0]} // cvc5 first: it is the one that decides the string obligations
-			for _, cfg := range cfgs2 {
-				st, _, ms := runSolver(cfg, f2, pr.timeout)
-				v.Ms += ms
-				v.Tried = append(v.Tried, cfg.name+"/stripped:"+st)
-				if st == "unsat" {
-					v.Status = "proved"
-					v.Backend = cfg.name + "/stripped"
-					os.Remove(f2)
-					if !pr.keep {
-						os.Remove(file)
-					}
-					return v
+			if !containsQuant(o.Goal) {
+				s2, _ := vc.scriptMode(o, prelude, axioms, false, true)
+				f2 := file + ".qf.smt2"
+				if err := os.WriteFile(f2, []byte(s2), 0o644); err == nil {
+					extra = append(extra, f2)
+					qf := solversFor(false, pr.tier)
+					group = append(group, attempt{cfg: qf[2], file: f2, stripped: true, timeout: pr.timeout}, attempt{cfg: qf[0], file: f2, stripped: true, timeout: pr.timeout})
 				}
 			}
-			if !pr.keep {
-				os.Remove(f2)
+		} else {
+			group = append(group, attempt{cfg: cfgs[0], file: file, timeout: pr.timeout}, attempt{cfg: cfgs[1], file: file, timeout: pr.timeout}, attempt{cfg: cfgs[2], file: file, timeout: pr.timeout})
+		}
+		var p2 bool
+		p2, sat, _ = record(runGroup(group))
+		if p2 {
+			cleanup(extra...)
+			return v
+		}
+		if !pr.keep {
+			for _, f := range extra {
+				os.Remove(f)
 			}
 		}
 	}
-	if sawSat {
+	if sat != nil {
+		// definite counterexample of the VC: fetch a model
+		v.Backend = sat.a.cfg.name
+		v.Output = sat.out
+		ms2, _ := vc.script(o, prelude, axioms, true)
+		mf := file + ".model.smt2"
+		os.WriteFile(mf, []byte(ms2), 0o644)
+		_, mout, _ := runSolver(sat.a.cfg, mf, pr.timeout)
+		v.Model = mout
+		os.Remove(mf)
 		v.Status = "failed-sat"
-	} else {
-		v.Status = "failed-unknown"
+		return v
 	}
+	v.Status = "failed-unknown"
 	return v
 }
 
